@@ -130,3 +130,43 @@ def contains_call_attr(node: ast.AST, attr_names: Iterable[str]) -> bool:
         if isinstance(c.func, ast.Name) and c.func.id in names:
             return True
     return False
+
+
+class RuleProxy:
+    """Report view that files every obligation of a borrowed rule module under one rule id of the borrowing property."""
+
+    def __init__(self, rep, rid: str):
+        self._rep = rep
+        self._rid = rid
+
+    def rule(self, rid, text, floor=1):
+        pass
+
+    def ok(self, rid, key, *a, **k):
+        return self._rep.ok(self._rid, f"{rid}:{key}", *a, **k)
+
+    def violation(self, rid, key, *a, **k):
+        return self._rep.violation(self._rid, f"{rid}:{key}", *a, **k)
+
+    def note(self, t):
+        return self._rep.note(t)
+
+    def __getattr__(self, name):
+        return getattr(self._rep, name)
+
+
+def helpers_exact(prog, rep, rid: str, piecewise: bool = False):
+    """The modelling helpers a model relies on encode exactly the product / piecewise relation (C12.R1-R3)."""
+    from rules import c12
+    px = RuleProxy(rep, rid)
+    c12.r1(prog, px)
+    c12.r2(prog, px)
+    if piecewise:
+        c12.r3(prog, px)
+
+
+def node_mode_plumbing(prog, rep, rid: str):
+    """Node-weighted input reaches the model through NodeExpandedDiGraph: its naming scheme, attribute handling and
+    translators are a necessary condition of every property that quantifies over node-weighted graphs (C11.R3)."""
+    from rules import c11
+    c11.naming_rule(prog, RuleProxy(rep, rid))
